@@ -197,3 +197,11 @@ TEXT["C11"].update(
     level=TEXT["C11"]["level"] + " Top-level defaults (Verus, R9 slices of build_default_config): the base policy always matches and carries exactly DNS servers (option 6: IPv4 servers in order, 0.0.0.0 = $self4 replaced by the address the request arrived on, IPv6 servers left out), "
           "search list (119) and captive portal (114, an explicit do-not-send entry when none is configured); for the subnet the request arrived on: interface MTU (26) and default router (3), nothing else touched; handle_discover/handle_request apply the base policy FIRST and the configured policies after it, so those override it.",
     note="Not decided: the construction of the base policy's sub-policy list around the slices (filter_map over `addresses`), interface matching (match-interface is parsed but never evaluated by the code), if_mtu > 65535. Assumed: see evidence.")
+
+TEXT["C07"].update(engine="kani+verus",
+    technique="Kani complete harnesses on the real address conversion functions; Verus on create_outquery, the waiter registration of TcpNameserver::send_tcp_query (R9 slice) and send_tcp_reply (HashMap<u16, waiter> through vstd's specs)",
+    level="Complete (Kani), all 2^32 IPv4 / 2^128 IPv6 addresses: the source address put in the IP_PKTINFO control message is in network byte order and the exact inverse of RecvMsg::local_ip (reply sent from the address it was addressed to). "
+          "Unbounded deductive (Verus): the query forwarded upstream carries the chosen id and exactly the client's question; registering a forwarded query on a shared upstream TCP connection never panics, terminates, never overwrites or loses a waiter in flight and stores the new waiter under a free id; "
+          "a reply is handed to the waiter registered under its id and to no other, which is then removed. ONLY these clauses of C07 are decided.",
+    note="NOT decided by this family here: exactly-one-reply, behaviour under reordering/duplication/loss, retry/backoff/time-out bounds, SERVFAIL within bounded time (schedules, timers and I/O faults: Kani has no threads, Verus would need its own permission types around tokio). "
+         "Seeded change C07-1 (a liveness defect) is accordingly not detected. Defect D07 (id collision panics the connection task) was found here by the no-panic obligation, demonstrated on the real code and fixed.")
